@@ -365,6 +365,8 @@ fn format_expression_internal(
                 ExpressionContext::BinaryLHS
             };
             let lhs = format_expression_internal(ctx, lhs, context, shape);
+            #[cfg(feature = "luau")]
+            let lhs = parenthesise_type_assertion_before_less_than(lhs, binop);
             let binop = format_binop(ctx, binop, shape);
             let shape = shape.take_last_line(&lhs) + binop.to_string().len();
             Expression::BinaryOperator {
@@ -379,6 +381,49 @@ fn format_expression_internal(
             }
         }
         other => panic!("unknown node {:?}", other),
+    }
+}
+
+/// A type assertion which ends with a name cannot be followed by `<`, as it would be parsed as the start of the
+/// generic arguments of the type. This can happen once the parentheses around the type are removed
+/// [e.g. `x :: (T) < y`], so the type assertion is enclosed in parentheses instead [i.e. `(x :: T) < y`]
+#[cfg(feature = "luau")]
+fn parenthesise_type_assertion_before_less_than(lhs: Expression, binop: &BinOp) -> Expression {
+    if matches!(binop, BinOp::LessThan(_)) {
+        parenthesise_trailing_type_assertion(lhs)
+    } else {
+        lhs
+    }
+}
+
+#[cfg(feature = "luau")]
+fn parenthesise_trailing_type_assertion(expression: Expression) -> Expression {
+    match expression {
+        Expression::BinaryOperator { lhs, binop, rhs } => Expression::BinaryOperator {
+            lhs,
+            binop,
+            rhs: Box::new(parenthesise_trailing_type_assertion(*rhs)),
+        },
+        Expression::UnaryOperator { unop, expression } => Expression::UnaryOperator {
+            unop,
+            expression: Box::new(parenthesise_trailing_type_assertion(*expression)),
+        },
+        Expression::TypeAssertion { .. }
+            if strip_trivia(&expression)
+                .to_string()
+                .ends_with(|character: char| character.is_alphanumeric() || character == '_') =>
+        {
+            let (expression, trailing_comments) = trivia_util::take_trailing_comments(&expression);
+            Expression::Parentheses {
+                contained: ContainedSpan::new(
+                    TokenReference::symbol("(").unwrap(),
+                    TokenReference::symbol(")").unwrap(),
+                )
+                .update_trailing_trivia(FormatTriviaType::Append(trailing_comments)),
+                expression: Box::new(expression),
+            }
+        }
+        other => other,
     }
 }
 
@@ -1330,6 +1375,9 @@ fn hang_binop_expression(
                 }
             };
 
+            #[cfg(feature = "luau")]
+            let lhs = parenthesise_type_assertion_before_less_than(lhs, &new_binop);
+
             Expression::BinaryOperator {
                 lhs: Box::new(lhs),
                 binop: new_binop,
@@ -1580,6 +1628,9 @@ fn format_hanging_expression_(
                 )
                 .update_leading_trivia(FormatTriviaType::Replace(Vec::new()));
             }
+
+            #[cfg(feature = "luau")]
+            let lhs = parenthesise_type_assertion_before_less_than(lhs, &new_binop);
 
             Expression::BinaryOperator {
                 lhs: Box::new(lhs),
